@@ -49,6 +49,16 @@ Proof.
   apply (ext_to _ _ _ _ n (Inv_for_each_set _ _ (fun i => Inv_remove_cp i true)) C2 E). left. reflexivity.
 Qed.
 
+Lemma del_remove_ns_disconnecting n s s' :
+  cons g0 s -> remove_ns_disconnecting n s = (inl tt, s') -> In n (snd s').
+Proof.
+  intros C E. unfold remove_ns_disconnecting in E.
+  apply bind_ok in E. destruct E as [ifs [s1 [E1 E]]]. apply get_ok in E1. destruct E1 as [-> ->].
+  apply bind_ok in E. destruct E as [[] [s1 [E1 E]]].
+  pose proof (cons_to _ _ _ _ (Inv_for_each_set _ _ Inv_disconnect_peers_of) C E1) as C1.
+  apply (del_remove_ns n s1 s' C1 E).
+Qed.
+
 Lemma del_remove_component n s s' : cons g0 s -> remove_component n s = (inl tt, s') -> In n (snd s').
 Proof.
   intros C E. unfold remove_component in E.
@@ -157,7 +167,7 @@ Proof.
     apply delete_ok in Et. destruct Et as [_ ->]. left. reflexivity.
   - (* remove_network_service *)
     apply then_ret_ok in E. destruct E as [[] E]. unfold api_remove_ns_topo in E.
-    exact (del_by_name_tail g CNS name remove_ns (g, []) (g', tr) x Inv_remove_ns (del_remove_ns g) C0 E Hx).
+    exact (del_by_name_tail g CNS name remove_ns_disconnecting (g, []) (g', tr) x Inv_remove_ns_disconnecting (del_remove_ns_disconnecting g) C0 E Hx).
   - (* remove_component *)
     apply then_ret_ok in E. destruct E as [[] E]. unfold api_remove_component in E.
     apply bind_ok in E. destruct E as [[] [s1 [E1 E]]]. apply need_class_ok in E1. destruct E1 as [_ [_ ->]].
@@ -179,7 +189,7 @@ Proof.
     simpl in Hs. destruct Hx as [Hx1 Hx2].
     assert (Hxc : In x (child_by_name g (first_neighbor g n RHas CNS) sname)).
     { unfold child_by_name. apply filter_In. split; [exact Hx1 | apply N.eqb_eq; exact Hx2]. }
-    rewrite Hs in Hxc. destruct Hxc as [<-|[]]. apply (del_remove_ns g s _ _ C0 E).
+    rewrite Hs in Hxc. destruct Hxc as [<-|[]]. apply (del_remove_ns_disconnecting g s _ _ C0 E).
   - (* disconnect_interface *)
     apply bind_ok in E. destruct E as [c [s1 [E E2]]]. apply ret_ok in E2. destruct E2 as [_ E2]. subst s1.
     unfold api_disconnect in E. apply bind_ok in E. destruct E as [rr [s1 [E E2]]].
@@ -196,7 +206,10 @@ Proof.
     apply bind_ok in E. destruct E as [x0 [s1 [E1 E]]]. apply need_node_ok in E1. destruct E1 as [_ ->].
     apply bind_ok in E. destruct E as [x1 [s1 [E1 E]]]. apply need_node_ok in E1. destruct E1 as [_ ->].
     apply bind_ok in E. destruct E as [e [s1 [E1 E]]]. apply get_ok in E1. destruct E1 as [-> ->].
-    simpl in E. destruct Hx as [xy [Hu Hx]]. rewrite Hu in E. unfold api_unpeer_with in E.
+    simpl in E. destruct Hx as [xy [Hu Hx]]. rewrite Hu in E. unfold api_unpeer_checked in E.
+    apply bind_ok in E. destruct E as [okb [s1 [E1 E]]]. apply get_ok in E1. destruct E1 as [-> ->].
+    apply bind_ok in E. destruct E as [[] [s1 [E1 E]]]. apply guard_ok in E1. destruct E1 as [_ ->].
+    unfold api_unpeer_with in E.
     apply bind_ok in E. destruct E as [[] [s1 [E1 E]]].
     pose proof (cons_to g _ _ _ _ (Inv_remove_cp _ _) C0 E1) as C1.
     apply bind_ok in E. destruct E as [[] [s2 [E2 E]]]. apply ret_ok in E. destruct E as [_ E]. rewrite <- E in *.
